@@ -176,12 +176,19 @@ type ServiceRouterWatcher struct {
 	sr     *ServiceRouter
 	target string
 	closed atomic.Bool
+
+	// mu orders the closed check and the route update of UpdateDesc against Close,
+	// so that an update in flight during Close can't re-add routes after Close has removed them.
+	mu sync.Mutex
 }
 
 // UpdateDesc updates the description of the target this watcher is watching.
 // It follows the same semantics as [PatternRouterWatcher.UpdateDesc],
 // the documentation for which goes into more detail.
 func (srw *ServiceRouterWatcher) UpdateDesc(desc *bridgedesc.Target) {
+	srw.mu.Lock()
+	defer srw.mu.Unlock()
+
 	if srw.closed.Load() {
 		return
 	}
@@ -205,6 +212,9 @@ func (srw *ServiceRouterWatcher) ReportError(error) {
 // Close closes the watcher, preventing further updates from being applied to the router through it.
 // It is an error to call Close() multiple times on the same watcher, and doing so will result in a panic.
 func (srw *ServiceRouterWatcher) Close() {
+	srw.mu.Lock()
+	defer srw.mu.Unlock()
+
 	if !srw.closed.CompareAndSwap(false, true) {
 		panic("grpcbridge: ServiceRouterWatcher.Close() called multiple times")
 	}
